@@ -6,6 +6,7 @@ import (
 	"encoding/json"
 	"fmt"
 	"os"
+	"strings"
 
 	"github.com/tonkeeper/tongo/boc"
 
@@ -60,6 +61,9 @@ func ReplayBegins(w *ev.Writer, o Opts) error {
 			name := str("type")
 			t, ok := tlbx.Registry[name]
 			if !ok {
+				t, ok = typeByName(name)
+			}
+			if !ok {
 				return fmt.Errorf("unknown type %q", name)
 			}
 			if _, seen := d.quota[name]; !seen {
@@ -78,6 +82,9 @@ func ReplayBegins(w *ev.Writer, o Opts) error {
 				}
 				root = fromCell(roots[0], map[*boc.Cell]*node{})
 				src = ev.M{"boc": hx}
+				if sid, ok := b["seedid"]; ok {
+					src["seedid"] = sid
+				}
 			} else {
 				tab, _ := b["tab"].(map[string]any)
 				if root, err = nodeOfTable(tab); err != nil {
@@ -85,6 +92,10 @@ func ReplayBegins(w *ev.Writer, o Opts) error {
 				}
 			}
 			d.decode(name, t, class, root, src, site == "Decoder.Unmarshal")
+		case "Tuple":
+			v := tupleVec{N: int(b["n"].(float64)), Kind: strings.TrimPrefix(class, "tuple:"), Vals: str("vals"), Boc: str("boc"), Stack: str("boc")}
+			v.WF, _ = b["wf"].(bool)
+			execTuple(r, str("form"), v)
 		case "Bag":
 			raw, _ := hex.DecodeString(str("boc"))
 			r.Call("Bag", site, class, ev.M{"boc": str("boc"), "type": str("type"), "size": len(raw)}, []string{"type", "size"}, func(out ev.M) error {
